@@ -187,9 +187,16 @@ func Run(req *fnv1.RunFunctionRequest) *fnv1.RunFunctionResponse {
 				delete(rsp.Desired.Resources, name)
 			}
 		case "blank": // keeps the entry but strips its body (no apiVersion, no kind): only "ready" remains
-			if r, ok := rsp.Desired.Resources[str(op["name"])]; ok {
-				r.Resource = &structpb.Struct{}
-				r.Ready = fnv1.Ready_READY_TRUE
+			names := []string{str(op["name"])}
+			if p := str(op["items"]); p != "" {
+				v, _ := getPath(xr, p)
+				names = strList(v)
+			}
+			for _, n := range names {
+				if r, ok := rsp.Desired.Resources[n]; ok {
+					r.Resource = &structpb.Struct{}
+					r.Ready = fnv1.Ready_READY_TRUE
+				}
 			}
 		case "dropFixed":
 			delete(rsp.Desired.Resources, str(op["name"]))
